@@ -63,8 +63,17 @@ CASES_T = CASES_Q + [
 ]
 
 
+TWICE = [('qubo', 'QUBO', [('a',), ('a', 'b'), ('b',)], 1, 'T0', 'mixed', 1), ('qubo', 'QUBOMatrix', [(0,), (0, 1), ()], 1, 'T0', 'up', 1), ('qubo', 'dict', [(0,), (0, 1), (1,)], 1, 'T0', 'down', 1),
+         ('pubo', 'PUBO', [('a', 'b', 'c'), ('c',), ()], 1, 'T0', 'mixed', 1), ('pubo', 'dict', [(0, 1, 2), (2,)], 1, 'T0', 'up', 1),
+         ('quso', 'QUSO', [('a',), ('a', 'b'), ()], 1, 'T0', 'mixed', 1), ('puso', 'PUSOMatrix', [(0, 1, 2), (1,)], 1, 'T0', 'up', 1)]
+
+
 def jobs(tier, seed):
     J = []
+    for i, (kind, mtype, keys, na, sched, init, io) in enumerate(TWICE):
+        J.append(dict(name='twice/%02d/%s/%s/%s' % (i, kind, mtype, ','.join(''.join(map(str, k)) or '-' for k in keys)), sig='twice/%s/%s' % (kind, mtype), module='vq.props.pipeline',
+                      make='make_pipeline', args=dict(prop='C11', kind=kind, mtype=mtype, keys=[list(k) for k in keys], num_anneals=na, sched=sched, init=init, in_order=io, twice=True),
+                      budget_s=400 if tier == 'quick' else 2400, witness_all=0, witness_rate=0, max_cex=10))
     for i, (kind, mtype, keys, na, sched, init, io, stale) in enumerate(CASES_Q if tier == 'quick' else CASES_T):
         name = '%02d/%s/%s/%s/n=%d/%s/init=%s/order=%d%s' % (i, kind, mtype, ','.join(''.join(map(str, k)) or '-' for k in keys), na, sched, init, io, '/' + stale if stale else '')
         J.append(dict(name=name, sig='%s/%s' % (kind, mtype), module='vq.props.pipeline', make='make_pipeline',
